@@ -191,6 +191,9 @@ type Step struct {
 	SQL      string
 	Proto    string                       // simple | extended | extended-describe-stmt | extended-reuse
 	Groups   [][]pgproto3.FrontendMessage // each group ends with Query or Sync; the runner waits for ReadyForQuery after each
+	// RefGroups, when set, is what the reference database gets instead of Groups: same statement shape, but the values the
+	// application encrypted itself (AcraStruct / AcraBlock made by AcraWriter / AcraTranslator) are spelled as their plaintexts.
+	RefGroups [][]pgproto3.FrontendMessage
 	Writes   []Written
 	ParamFmt string // none | text | binary | mixed
 	ResFmt   string // text | binary | mixed
